@@ -1279,7 +1279,12 @@ def main(argv=None):
                            'fault sequence "fsync of tpc_finish raises": the bytes written to Data.fs since the last successful '
                            'fsync may be lost while the index file that close() saves afterwards survives (that is what a '
                            'failed fsync means); both the tail-present and the tail-lost file are reopened with that index',
-                           'read-only storages are opened both directly and through a ZODB.config <filestorage> section',
+                           'read-only storages are opened both directly and through a ZODB.config <filestorage> section, with '
+                           'and without blob_dir, while the writer is idle / begun / has stored 27 KB / has voted, and during a '
+                           'pack (before every whole-file operation; oracle-only: dump equals the unpacked or the packed file); '
+                           'read_only+create must be refused untouched; side files also zero-length and (.old/.pack/.trN) as '
+                           'directories; permission-denied variants are not run (the checks run as root); indexes newer than '
+                           'the file are compared model-vs-implementation only (outside the property)',
                            'cleanup() — the test-support call that deletes the database files, not part of '
                            'ZODB.interfaces — is not counted as a public write API',
                            'pickle framing of the index file is idealised as a prefix-free code in the model; every '
